@@ -1140,6 +1140,34 @@ def check_c13(tier, seed, log=print):
                 run.violation('callback', rep_of(r, idx, cfgname, mode, hx, observed=v, expected=ref,
                                                  what='stream differs from the reference lexer with the documented callback table'),
                               key='%s|%s' % (corpus[idx].origin, hx))
+    # "a callback runs once for each match of that pattern that wins selection": the number of callback invocations during
+    # a lexing (every zoo callback announces itself) against the reference lexer's count, and against the model of the generated lexer
+    calls = dict(streams=0, invocations=0, tie_differences=0)
+    for cfgname in r['zoo_out']:
+        if 'trace' in cfgname:
+            continue
+        st = streams_of(r, cfgname)
+        if st is None:
+            continue
+        for (idx, mode, hx), v in st.items():
+            if mode != 'c':
+                continue
+            calls['streams'] += 1
+            sv = lean.get('%d SPECCALLS %s' % (idx, hx))
+            mv = lean.get('%d CALLS %s' % (idx, hx))
+            ref = sv if sv not in (None, 'LOOK') else mv
+            try:
+                calls['invocations'] += int(v.rsplit('#', 1)[1])
+            except (IndexError, ValueError):
+                pass
+            if ref is not None and ref != v and idx not in fails:
+                fails.add(idx)
+                run.violation('callback-count', rep_of(r, idx, cfgname, mode, hx, observed=v, expected=ref,
+                                                       what='the number of callback invocations (after #) or the stream differs from the reference lexer: a callback did not run exactly once per winning match'),
+                              key='calls|%s|%s' % (corpus[idx].origin, hx))
+            if mv is not None and mv != v:
+                calls['tie_differences'] += 1
+    run.coverage['callback_invocations'] = calls
     nt, dis, bad_defs = tie_pass(run, r, modes=('n',))
     report_tie(run, r, {k: v for k, v in bad_defs.items() if k in cbdefs}, covered=fails)
     run.coverage.update(dict(evaluations=n, distinct_nontrivial=len(nontriv),
